@@ -512,6 +512,7 @@ def r8_side_tolerance(repo: Repo, rep, rule_id="R-C05-8"):
                  why="barycentric coordinates of the boundary sampler's own points are computed in float32 (resolution 1.2e-7): with the default "
                      "atol=1e-8 a comparison with 0 rejects them - not contained in their own boundary, no side found, NaN normal")
     bd = repo.cls("problem.domains.domain.BoundaryDomain")
+    records = []  # (class name, roles of the function, compared constant, effective tolerance, function, node)
     for ci in repo.subclasses(bd, strict=True):
         # own methods reachable from _contains / normal
         reach: Dict[str, FuncInfo] = {}
@@ -630,6 +631,7 @@ def r8_side_tolerance(repo: Repo, rep, rule_id="R-C05-8"):
                             rep.undecided(R, fi.site(n), fi.fq, f"{label}: constant tolerances", f"rtol={dump(rt) if rt is not None else 'default'}, atol={dump(at) if at is not None else 'default'}")
                             continue
                         eff = atol + rtol * abs(c)
+                        records.append((ci.name, frozenset(role.get(m, ())), c, eff, fi, n))
                         rep.check(R, eff >= SLACK, fi.site(n), fi.fq, f"{label}: atol + rtol*|c| >= {SLACK:g}", f"effective tolerance {eff:g}", f"{label} tolerance {eff:g}")
                 if isinstance(n, ast.Compare) and len(n.ops) == 1 and isinstance(n.ops[0], (ast.LtE, ast.Lt, ast.GtE, ast.Gt)):
                     # |b - c| <= t spelled out: the explicit form of isclose with atol = t, rtol = 0
@@ -647,6 +649,9 @@ def r8_side_tolerance(repo: Repo, rep, rule_id="R-C05-8"):
                             if t is None:
                                 rep.undecided(R, fi.site(n), fi.fq, f"{label}: constant tolerance", dump(big)[:60])
                             else:
+                                cc = _fold(inner.right) if inner is not subj else 0.0
+                                if cc is not None:
+                                    records.append((ci.name, frozenset(role.get(m, ())), cc if isinstance(inner.op, ast.Sub) else -cc, t, fi, n) if inner is not subj else (ci.name, frozenset(role.get(m, ())), 0.0, t, fi, n))
                                 rep.check(R, t >= SLACK, fi.site(n), fi.fq, f"{label}: t >= {SLACK:g}", f"tolerance {t:g}", f"{label} tolerance {t:g}")
                             continue
                 if isinstance(n, ast.Compare) and "_contains" in role.get(m, ()):
@@ -666,6 +671,7 @@ def r8_side_tolerance(repo: Repo, rep, rule_id="R-C05-8"):
                                 rep.check(R, v <= -SLACK, fi.site(n), fi.fq, f"lower end of the unit range widened: bound <= -{SLACK:g}", f"`{dump(n)[:60]}`: bound {v:g}", f"range test {label}")
                             elif not lower and abs(v - 1) < 0.5:
                                 rep.check(R, v >= 1 + SLACK, fi.site(n), fi.fq, f"upper end of the unit range widened: bound >= 1 + {SLACK:g}", f"`{dump(n)[:60]}`: bound {v:g}", f"range test {label}")
+    return records
 
 
 def _roles_of(expr: ast.AST, roles: Dict[str, Set[str]]) -> Set[str]:
